@@ -252,6 +252,7 @@ MANIFEST_META = {
     "level_text": "Generated algebras (all signature kinds r=0/1/>=2, d<=6, default, random custom and named bases incl. odd "
                   "pseudoscalar spellings) and sparse operands with indeterminate coefficients are pushed through the duality "
                   "round trips, the blade axiom, the polarity/ZeroDivisionError clause, the regressive-product definition and "
-                  "identity, and the dual()/undual() selection rule; every value is also compared with the reference.",
+                  "identity, and the dual()/undual() selection rule; every value is also compared with the reference."
+                  " Symbolic operands (incl. hidden zeros) are dualised and the result called with keyword values.",
     "level_note": "Trusted: kv.refalg/kv.refops (hodge defined by the axiom), kv.ring.Q, Hypothesis. Sampling; d>6 not explored.",
 }
